@@ -1083,6 +1083,8 @@ def reader_eval(ctx, R, thorough=False):
             ref = ref[:-1]
             want = want[:len(ref)]  # (a client that drops the connection on BYE reads nothing more from it)
         got_ref = [tuple(bytes(x) if isinstance(x, (bytes, bytearray)) else x for x in r[0]) if isinstance(r[0], tuple) else r for r in ref]
+        if whole.startswith(b"{0}\r\n") and got_ref and got_ref[0] == (b"OK", None, b""):
+            want = [(b"OK", None, b"")] + want[1:]  # an empty value: with or without the line end that follows it (nothing fixes which)
         if got_ref != want:
             return ("bad", "the reply stream %r, delivered in one segment, is read as %r; it says %r" % (whole, ref, want))
         L = len(whole)
